@@ -341,7 +341,8 @@ def faulty_sets(R, rng, tier):
             R.case(("fset", tuple(lay), fmt), nontrivial=True, sample={"layout": lay, "format": fmt, "exit": r["exit"], "exception": r["exception"]})
             R.count("faulty-set:%s" % fmt)
             inp = {"files": [os.path.basename(n) for n in names], "kinds": lay, "options": ["-f", fmt, "-o", "OUT", "--exit-zero"]}
-            produced = ("Run started" in r["stdout"]) if fmt == "screen" else (os.path.exists(out) and os.path.getsize(out) > 0)
+            # the custom template is one line per finding: its report of no findings is an empty file
+            produced = ("Run started" in r["stdout"]) if fmt == "screen" else (os.path.exists(out) and (fmt == "custom" or os.path.getsize(out) > 0))
             if r["exception"] or r["exit"] != 0 or not produced:      # the screen formatter always writes to the terminal
                 R.violations.append({"what": "no %s report for a run over files %s (%s)" % (fmt, lay, r["exception"] or "exit %s" % r["exit"]),
                                      "input": inp, "observed": (r["traceback"] or r["stderr"] or "")[-500:], "signature": None})
